@@ -15,11 +15,12 @@ import subprocess
 import sys
 import time
 
-prop, n = sys.argv[1], sys.argv[2]
+tag, n = sys.argv[1], sys.argv[2]
+prop, rnd = tag[:3], tag[3:]
 extra = sys.argv[3].split(",") if len(sys.argv) > 3 else []
-src = f"/tmp/wtout/{prop}"
-wt = f"/tmp/wt/{prop}"
-dest = f"/verif/seeded/{prop}-{n}"
+src = f"/tmp/wtout/{tag}"
+wt = f"/tmp/wt/{tag}"
+dest = f"/verif/seeded/{prop}-{rnd}{n}"
 patch = f"{src}/patch{n}.diff"
 demo = f"{src}/demo{n}.py"
 
@@ -48,7 +49,7 @@ print("confirmed:", ok, meta["confirmed"]["suite_with_change"], meta["confirmed"
 
 # run the checks against it
 assert sh("git -C /repo status --porcelain").stdout.strip() == "", "/repo not clean"
-scratch = f"/dev/shm/seeded-eval-{prop}-{n}"
+scratch = f"/dev/shm/seeded-eval-{tag}-{n}"
 shutil.rmtree(scratch, ignore_errors=True)
 os.makedirs(scratch)
 r = sh(f"git -C /repo apply {patch}")
